@@ -29,7 +29,7 @@ vars == <<cells, items, np, nph, done>>
 P == INSTANCE TemplateParser WITH WidthOverflow <- OverflowMode, Backtrack <- BacktrackMode
 
 KeyCells(k) == CASE k = "k" -> <<107>> [] k = "zz" -> <<122, 122>> [] k = "pos" -> K_pos [] k = "len" -> K_len
-                 [] k = "msg" -> K_msg [] k = "wide_msg" -> K_wide_msg [] k = "prefix" -> K_prefix [] k = "Zz9" -> <<90, 122, 57>> [] OTHER -> <<113>>
+                 [] k = "msg" -> K_msg [] k = "wide_msg" -> K_wide_msg [] k = "wide_bar" -> K_wide_bar [] k = "prefix" -> K_prefix [] k = "Zz9" -> <<90, 122, 57>> [] OTHER -> <<113>>
 AlignCell(a) == CASE a = "<" -> 60 [] a = "^" -> 94 [] a = ">" -> 62 [] OTHER -> 0
 WidthCells(w) == CASE w = "0" -> <<48>> [] w = "1" -> <<49>> [] w = "3" -> <<51>> [] w = "05" -> <<48, 53>>
                    [] w = "65535" -> <<54, 53, 53, 51, 53>> [] w = "65536" -> <<54, 53, 53, 51, 54>>
@@ -48,10 +48,16 @@ PlainPieces == {PcLit(c) : c \in LitChars} \cup {SpecialPiece(s) : s \in Special
 Env == [k |-> <<75, 86>>, pos |-> 3, len |-> 7, msg |-> <<77, 103>>, prefix |-> <<80, 120>>]    \* "KV" 3 7 "Mg" "Px"
 WideTerm == \E j \in 1..Len(items) : items[j].k = "ph" /\ items[j].hasw /\ Len(items[j].w) >= 4
 
+IsWide(its) == \E j \in 1..Len(its) : its[j].k = "ph" /\ its[j].text \in {K_wide_msg, K_wide_bar}
+LastNl(its) == IF \E j \in 1..Len(its) : its[j].k = "nl" THEN CHOOSE j \in 1..Len(its) : its[j].k = "nl" /\ \A q \in (j + 1)..Len(its) : its[q].k # "nl" ELSE 0
+WideOnLastLine(its) == IsWide(SubSeq(its, LastNl(its) + 1, Len(its)))
+
 Init == cells = <<>> /\ items = <<>> /\ np = 0 /\ nph = 0 /\ done = FALSE
 Step == /\ np < D /\ ~done
         /\ \/ \E p \in PlainPieces : cells' = cells \o p[1] /\ items' = items \o p[2] /\ nph' = nph
-           \/ nph < MaxPh /\ \E p \in PhPieces : cells' = cells \o p[1] /\ items' = items \o p[2] /\ nph' = nph + 1
+           (* RESTRICTION: at most one wide element per template line (what two of them on one line share is not specified) *)
+           \/ nph < MaxPh /\ \E p \in {q \in PhPieces : IsWide(q[2]) => ~WideOnLastLine(items)} :
+                                  cells' = cells \o p[1] /\ items' = items \o p[2] /\ nph' = nph + 1
         /\ np' = np + 1 /\ UNCHANGED done
 Emit == /\ ~done
         /\ PrintT(<<"REPLAY", ToJson([ops |-> <<[op |-> "tpl", tpl |-> cells, wf |-> TRUE, items |-> items, env |-> Env,
